@@ -254,6 +254,9 @@ def run(ctx: Ctx) -> int:
 		'quote_pinned': ('TokQuote', 'TokQuote_pinned.cfg', 1, 600),
 		'quote_emit': ('TokQuote', 'TokQuote_emit3.cfg' if quick else 'TokQuote_emit5.cfg', 1, 3000),
 		**{f'layout_emit_{k}': ('TokLayout', cfg, 1, 2400) for k, cfg in enumerate(layout_cfgs)},
+		'blocks': ('TokBlocks', 'TokBlocks_4.cfg' if quick else 'TokBlocks_5.cfg', 2, 3000),
+		'blocks_pinned': ('TokBlocks', 'TokBlocks_pinned.cfg', 1, 600),
+		'blocks_emit': ('TokBlocks', 'TokBlocks_emit4.cfg' if quick else 'TokBlocks_emit5.cfg', 1, 3000),
 	}
 	with ThreadPoolExecutor(max_workers=len(jobs)) as tex:
 		futures = {name: tex.submit(tlc.run, module, cfg, workers=workers, timeout=timeout, heap='8g') for name, (module, cfg, workers, timeout) in jobs.items()}
@@ -285,6 +288,15 @@ def run(ctx: Ctx) -> int:
 	if len(quote_cases) < 4000:
 		raise Machinery(f'TokQuote emitted {len(quote_cases)} texts only')
 	ctx.log(f'TLC: TokQuote {quote.distinct} lexer states, QuoteAgrees / Progress hold, violated when the search skips a whole closing quote; {len(quote_cases)} texts emitted')
+	# statement ends and block markers: TokBlocks.tla - the rebuild step (nest / enclosure / indent unit) against Python's width stack
+	if not done['blocks'].ok:
+		raise Machinery(f'TLC: TokBlocks.tla violates BlocksAgree / IndentsBalance / Progress: {done["blocks"].out[-1200:]}')
+	if done['blocks_pinned'].ok:
+		raise Machinery('TokBlocks_pinned.cfg (any widths Python accepts) satisfies BlocksAgree: the consistency condition is vacuous')
+	block_cases = [json.loads(line) for line in done['blocks_emit'].lines('CASE ')]
+	if len(block_cases) < 3000:
+		raise Machinery(f'TokBlocks emitted {len(block_cases)} programs only')
+	ctx.log(f'TLC: TokBlocks {done["blocks"].distinct} rebuild states, BlocksAgree / IndentsBalance hold for consistent widths, violated without that condition; {len(block_cases)} programs emitted')
 	seen = {}
 	for c in cases:
 		seen.setdefault(c['text'], c)
@@ -294,7 +306,11 @@ def run(ctx: Ctx) -> int:
 		results = list(ex.map(_check, [cases[i::nproc] for i in range(nproc)]))
 		mresults = list(ex.map(_check_munch, [(munch_cases[i::nproc], 'MaximalMunch', True) for i in range(nproc)]))
 		qresults = list(ex.map(_check_munch, [(quote_cases[i::nproc], 'LiteralEndsWherePythonEndsIt', False) for i in range(nproc)]))
-	results += mresults + qresults
+		bresults = list(ex.map(_check_munch, [(block_cases[i::nproc], 'BlockMarkers', True) for i in range(nproc)]))
+	results += mresults + qresults + bresults
+	b_supported = sum(r['supported'] for r in bresults)
+	if b_supported < len(block_cases) // 10:
+		raise Machinery(f'only {b_supported} of {len(block_cases)} block programs are in the supported subset')
 	q_supported = sum(r['supported'] for r in qresults)
 	if q_supported < len(quote_cases) // 10:
 		raise Machinery(f'only {q_supported} of {len(quote_cases)} string-literal texts are in the supported subset')
@@ -308,7 +324,7 @@ def run(ctx: Ctx) -> int:
 	if machinery:
 		raise Machinery(f'{len(machinery)} generated sources where spec and CPython disagree, e.g. {machinery[0]}')
 	failures = [f for r in results for f in r['failures']]
-	ctx.log(f'{len(cases)} distinct sources and {len(munch_cases)} symbol-run texts ({n_supported} supported), {len(quote_cases)} string-literal texts ({q_supported} supported) tokenized by tranp, CPython and the spec: {len(failures)} discrepancies')
+	ctx.log(f'{len(cases)} distinct sources and {len(munch_cases)} symbol-run texts ({n_supported} supported), {len(quote_cases)} string-literal texts ({q_supported} supported), {len(block_cases)} block programs ({b_supported} supported) tokenized by tranp, CPython and the spec: {len(failures)} discrepancies')
 	violations = []
 	groups: dict[str, list] = {}
 	for f in failures:
@@ -325,6 +341,8 @@ def run(ctx: Ctx) -> int:
 		'symbol_run_texts_supported': n_supported,
 		'lexer_states': munch.distinct + quote.distinct,
 		'string_literal_texts': len(quote_cases),
+		'block_programs': len(block_cases),
+		'block_programs_supported': b_supported,
 		'string_literal_texts_supported': q_supported,
 		'unary_minus_convention_departures': len(drift),
 		'three_way_agreement_spec_cpython': len(cases),
